@@ -57,3 +57,45 @@ Lemma reg_list_checks :
   types_overlap_with current_cfg 2404 reg_list 4 7 = Some true /\
   rel_depth current_cfg reg_list All 4 7 2404 = Some 4.
 Proof. vm_compute. repeat split; reflexivity. Qed.
+
+(* ---- F55 as a theorem: without the callable assumption the model runs out of EVERY fuel ----------
+   The activation (self 3, pattern 4) with stacks [2;3] / [4] re-enters itself after ten nested
+   calls (3,4) -> (4,2) -> (4,3) -> (2,4) -> (3,4), the assumption set staying empty: no fuel is
+   enough, i.e. the real function recursed until the stack overflowed. *)
+Notation cr f ss ps s p := (check_rel partial_cfg reg_F55 All f [] ss ps s p).
+
+Lemma T23 f : cr f [4] [2;3] 4 2 = None -> cr (S (S f)) [2;3] [4] 3 4 = None.
+Proof. intros H. cbn. cbn in H. rewrite H. reflexivity. Qed.
+
+Lemma T34 f : cr f [4] [2;3] 4 3 = None -> cr (S (S (S f))) [4] [2;3] 4 2 = None.
+Proof. intros H. cbn. cbn in H. rewrite H. reflexivity. Qed.
+Lemma T45 f : cr f [2;3] [4] 2 4 = None -> cr (S (S f)) [4] [2;3] 4 3 = None.
+Proof. intros H. cbn. cbn in H. rewrite H. reflexivity. Qed.
+Lemma T52 f : cr f [2;3] [4] 3 4 = None -> cr (S (S (S f))) [2;3] [4] 2 4 = None.
+Proof. intros H. cbn. cbn in H. rewrite H. reflexivity. Qed.
+Lemma T12 f : cr f [2;3] [4] 3 4 = None -> cr (S (S (S f))) [3] [4] 2 4 = None.
+Proof. intros H. cbn. cbn in H. rewrite H. reflexivity. Qed.
+Lemma T01 f : cr f [3] [4] 2 4 = None -> cr (S (S f)) [] [] 4 3 = None.
+Proof. intros H. cbn. cbn in H. rewrite H. reflexivity. Qed.
+
+Lemma loop_diverges : forall f,
+  cr f [2;3] [4] 3 4 = None /\ cr f [4] [2;3] 4 2 = None /\ cr f [4] [2;3] 4 3 = None /\ cr f [2;3] [4] 2 4 = None.
+Proof.
+  induction f as [f IH] using lt_wf_ind.
+  destruct f as [|[|[|f]]]; try (repeat split; reflexivity).
+  destruct (IH f ltac:(lia)) as [A0 [B0 [C0 D0]]].
+  destruct (IH (S f) ltac:(lia)) as [A1 [B1 [C1 D1]]].
+  repeat split.
+  - apply T23. exact B1.
+  - apply T34. exact C0.
+  - apply T45. exact D1.
+  - apply T52. exact A0.
+Qed.
+
+Theorem F55_partial_cfg_diverges : forall fuel,
+  check_rel partial_cfg reg_F55 All fuel [] [] [] 4 3 = None.
+Proof.
+  intros fuel. destruct fuel as [|[|f]]; try reflexivity.
+  apply T01. destruct f as [|[|[|f]]]; try reflexivity.
+  apply T12. apply (loop_diverges f).
+Qed.
